@@ -420,14 +420,14 @@ type w1ConfSet struct {
 }
 
 type w1Harness struct {
-	body     *w1Body
-	prop     string
-	dir      string
-	versions []*w1ConfSet
-	pm       *pathManager
-	pool     *externalcmd.Pool
-	authm    *auth.Manager
-	medias   []*description.Media
+	body      *w1Body
+	prop      string
+	dir       string
+	versions  []*w1ConfSet
+	pm        *pathManager
+	pool      *externalcmd.Pool
+	authm     *auth.Manager
+	medias    []*description.Media
 	nextSrc   atomic.Int64
 	procSeq   atomic.Int64
 	fwdSeq    atomic.Int64
